@@ -38,16 +38,18 @@ CHECKS = {
         RUNNER_NOTE, "DESIGN.md §4 C03",
     ),
     "C06": (
-        "Coq proof (refinement of circuit.py's pruned deques to an epoch specification by induction over histories; opening rule as iff) tied by in-Coq correspondence on breaker histories incl. exhaustive small scope",
+        "Coq proof (refinement of circuit.py's pruned deques to an epoch specification by induction over histories; opening rule as iff) tied (1) by a fail-closed AST translator that regenerates the methods of CircuitBreaker as terms of a deep embedding with a heap of deques (PyIRH.v) on every run, with re-proved obligations that each translated method computes the model's function on every related state and that every history computes Breaker.krun, and (2) by in-Coq correspondence on breaker histories incl. exhaustive small scope",
         "Theorems C06_* hold for every breaker configuration and every monotone history of the Gallina model of circuit.py; "
         "the model is compared with /repo's CircuitBreaker inside Coq on random boundary-biased and exhaustively enumerated "
         "small histories; disagreements that start while the model is CLOSED are attributed to C06.",
-        "Trusted: Coq kernel + vm_compute; hand-written model Breaker.v (tied by correspondence only); Python driver, virtual "
+        "Trusted: Coq kernel + vm_compute; pyir_circuit.py and the interpreter PyIRH.exec (the meaning given to the translated Python "
+        "fragment; __init__ is not translated); hand-written model Breaker.v (proved equal to the translated methods, and compared "
+        "with the running code by the correspondence); Python driver, virtual "
         "clock; non-decreasing clock; 1/64 s grid; constructor preconditions.",
         "DESIGN.md §5 C06",
     ),
     "C07": (
-        "Coq proof (state-machine lemmas over all histories: fail-fast window, single probe, close/reopen) tied by in-Coq correspondence on breaker histories and policy-level histories/interleavings",
+        "Coq proof (state-machine lemmas over all histories: fail-fast window, single probe, close/reopen) tied by in-Coq correspondence on breaker histories and policy-level histories/interleavings; the breaker's methods are additionally tied by translation (PyIRH.v / CircuitIR obligations, as for C06)",
         "Theorems C07_* hold for every configuration and history of the specification machine that C06_refinement ties to the "
         "circuit.py model, plus policy level (C07_policy_open_rejects, C07_policy_rejected_call on Policy.v); correspondence on "
         "open/half-open-cycle breaker histories (random + exhaustive small scope; disagreements that start while OPEN/HALF_OPEN are "
@@ -57,7 +59,7 @@ CHECKS = {
         "the model; interleaved AsyncPolicy coroutines on one breaker are driven against it as well (InterleaveCorr.icase_ok: decisions, "
         "events and breaker state after every API call of the interleaved history; the single-probe oracle on histories in the "
         "theorem's scope).",
-        "Trusted: as C06; policy-level part additionally trusts the scripted-world harness and hand-driven coroutines.",
+        "Trusted: as C06 (incl. pyir_circuit.py and the interpreter PyIRH.exec); policy-level part additionally trusts the scripted-world harness and hand-driven coroutines.",
         "DESIGN.md §5 C07",
     ),
     "C10": (
